@@ -18,7 +18,7 @@ var goNames = []string{"A", "B", "C", "Ab", "AB", "Name", "ID", "X1", "Field", "
 
 // JSON names used as tags and as object keys: case variants of one another, non-ASCII letters with case
 // mappings (inside and outside the ASCII-only fold), punctuation allowed in tags.
-var jsonNames = []string{"a", "A", "name", "Name", "NAME", "id", "Id", "x-y", "k", "K", "s", "S", "i", "I", "é", "É", "σ", "Σ", "ß",
+var jsonNames = []string{"a", "A", "name", "Name", "NAME", "id", "Id", "x-y", "k", "K", "s", "S", "i", "I", "é", "É", "σ", "Σ", "ß", "élève", "Élève",
 	"with space", "key", "Key", "kEY", "aa", "aA", "Aa", "n0", "ab", "AB", "Ab", "field", "FIELD", "q", "val", "zz", "x1", "f_1"}
 
 var tagOpts = []string{"", "", "", ",omitempty", ",string", ",string", ",omitempty,string", ",string,omitempty", ",strin", ",String", ", string"}
@@ -383,7 +383,7 @@ func (g *igen) intLit(ik string) string {
 	return strconv.FormatInt(n, 10)
 }
 
-var f32Lits = []string{"1.5", "3.4028234663852886e38", "3.4028235677973366e38", "340282356779733661637539395458142568447", "340282356779733661637539395458142568448",
+var f32Lits = []string{"1.5", "3.4028235e38", "3.4028235e+38", "-3.4028235e38", "3.40282350e38", "3.4028234663852886e38", "3.4028235677973366e38", "340282356779733661637539395458142568447", "340282356779733661637539395458142568448",
 	"3.4028236e38", "-3.4028235677973366e38", "1e39", "-1e39", "1e-46", "1.401298464324817e-45", "7e-46", "1.00000005960464477539062500000000000000000001", "1.0000000596046447753906250",
 	"16777217", "16777216.999999999999", "0.1", "-0", "1e38", "4e38", "1.17549435e-38", "33554433", "1.00000017881393432617187500000000000001"}
 
@@ -633,6 +633,10 @@ func (g *igen) value(t *Ty, d int) string {
 		if t.K == KArr {
 			n = t.N + r.Intn(3) - 1
 			if n < 0 {
+				n = 0
+			}
+			if t.N > 0 && r.Chance(1, 6) {
+				// the empty array into a (possibly pre-populated, possibly already decoded) fixed array: every element is zeroed
 				n = 0
 			}
 		}
